@@ -7,7 +7,7 @@ regenerated constants `Facts.MaxColumns`, `Facts.MinColumns`, `Facts.TotalRows`;
 `limits_ok` pins the values the arithmetic below relies on, so an edit of the
 constants in templates.go breaks this file.
 -/
-import XlModel.Lemmas.Ref2
+import XlModel.Lemmas.Ref5
 
 namespace XlModel.Props.C20
 open XlModel XlModel.Ref
@@ -28,14 +28,8 @@ theorem col_encode_decode (n : Nat) (h1 : 1 ≤ n) (h2 : n ≤ Facts.MaxColumns)
     have a : ¬ ((n : Int) < (Facts.MinColumns : Int)) := by rw [hM.2.1]; omega
     have b : ¬ ((n : Int) > (Facts.MaxColumns : Int)) := by omega
     simp [a, b]
-  · unfold columnNameToNumber
-    have hne := numToName_ne_nil h1
-    have : (numToName n).isEmpty = false := by simpa [List.isEmpty_iff] using hne
-    simp only [this, Bool.false_eq_true, if_false, colRaw_numToName]
-    have hw : wrap64 (n : Int) = n := wrap64_small (by omega) (by rw [hM.1] at h2; omega)
-    simp only [hw]
-    have : ¬ ((n : Int) > (Facts.MaxColumns : Int)) := by omega
-    simp [this]
+  · exact (columnNameToNumber_ok_iff _ _).mpr
+      ⟨numToName_ne_nil h1, n, colRaw_numToName n, h2, rfl⟩
 
 /-- the encoder is injective (on all naturals, not only in range) -/
 theorem col_encode_injective (m n : Nat) (h : numToName m = numToName n) : m = n := by
@@ -43,91 +37,54 @@ theorem col_encode_injective (m n : Nat) (h : numToName m = numToName n) : m = n
   rw [h, colRaw_numToName n] at a
   exact (Option.some.inj a).symm
 
-/-- every produced name is 1..3 upper-case letters… (letters: all `n`) -/
+/-- every produced name is made of upper-case letters (all `n`) -/
 theorem col_encode_upper (n : Nat) : ∀ c ∈ numToName n, isUp c = true := numToName_upper n
 
-/-- name → number → name: every accepted name of at most 13 letters decodes
+/-- name → number → name, for EVERY name (any length): an accepted name decodes
 into 1..MaxColumns and encodes back to its upper-case form. -/
-theorem col_decode_encode (name : List Char) (hl : name.length ≤ 13) (c : Int)
+theorem col_decode_encode (name : List Char) (c : Int)
     (h : columnNameToNumber name = .ok c) :
     1 ≤ c ∧ c ≤ (Facts.MaxColumns : Int) ∧ columnNumberToName c = .ok (name.map toUpper) := by
   have hM := limits_ok
-  unfold columnNameToNumber at h
-  split at h
-  · cases h
-  · rename_i hne
-    split at h
-    · cases h
-    · rename_i v hv
-      have hlt := colRaw_lt_of_short hv hl
-      have hw : wrap64 (v : Int) = v := wrap64_small (by omega) (by omega)
-      simp only [hw] at h
-      split at h
-      · cases h
-      · rename_i hmax
-        simp only [Except.ok.injEq] at h
-        subst h
-        have hne' : name ≠ [] := by
-          intro e; subst e; simp at hne
-        have ⟨_, _, hpos⟩ := colRawAux_bound hv
-        have h1 : 1 ≤ v := hpos hne'
-        refine ⟨by omega, by omega, ?_⟩
-        unfold columnNumberToName
-        have a : ¬ ((v : Int) < (Facts.MinColumns : Int)) := by rw [hM.2.1]; omega
-        simp only [a, hmax, decide_false, Bool.or_self, Bool.false_eq_true, if_false, Int.toNat_natCast]
-        have hu : colRaw (name.map toUpper) = some v := by
-          unfold colRaw; rw [colRawAux_toUpper]; exact hv
-        have hup : ∀ ch ∈ name.map toUpper, isUp ch = true := by
-          intro ch hch
-          obtain ⟨x, hx, rfl⟩ := List.mem_map.mp hch
-          exact (toUpper_letter_val (colRawAux_some_letters hv x hx)).1
-        rw [numToName_of_colRaw hup hu]
+  obtain ⟨hne, v, hv, hle, rfl⟩ := (columnNameToNumber_ok_iff name c).mp h
+  have h1 : 1 ≤ v := (colRawAux_bound hv).2.2 hne
+  refine ⟨by omega, by omega, ?_⟩
+  unfold columnNumberToName
+  have a : ¬ ((v : Int) < (Facts.MinColumns : Int)) := by rw [hM.2.1]; omega
+  have b : ¬ ((v : Int) > (Facts.MaxColumns : Int)) := by omega
+  simp only [a, b, decide_false, Bool.or_self, Bool.false_eq_true, if_false, Int.toNat_natCast]
+  have hu : colRaw (name.map toUpper) = some v := by
+    unfold colRaw; rw [colRawAux_toUpper]; exact hv
+  have hup : ∀ ch ∈ name.map toUpper, isUp ch = true := by
+    intro ch hch
+    obtain ⟨x, hx, rfl⟩ := List.mem_map.mp hch
+    exact (toUpper_letter_val (colRawAux_some_letters hv x hx)).1
+  rw [numToName_of_colRaw hup hu]
 
-/-- case-insensitivity -/
-theorem col_case_insensitive (name : List Char) :
-    columnNameToNumber (name.map toUpper) = columnNameToNumber name := by
-  unfold columnNameToNumber colRaw
-  rw [colRawAux_toUpper]
+/-- the decoder is exactly "exact bijective base-26 value within the limit": it
+accepts a name iff the name is non-empty, all letters and its exact value is at
+most `MaxColumns`, whatever the length of the name (no wrap-around: the limit is
+checked after every letter, `colLoop_small`). -/
+theorem col_decode_exact (name : List Char) (c : Int) :
+    columnNameToNumber name = .ok c ↔
+      name ≠ [] ∧ ∃ v, colRaw name = some v ∧ v ≤ Facts.MaxColumns ∧ c = (v : Int) :=
+  columnNameToNumber_ok_iff name c
+
+/-- no intermediate value of the decoding loop can overflow Go's `int` -/
+theorem col_decode_no_wrap (col multi : Nat) (c : Char) (cs : List Char) (v : Nat)
+    (hc : isLetter c = true) (h : colLoop col multi (c :: cs) = .ok v) :
+    col + letterVal c * multi ≤ Facts.MaxColumns ∧ multi ≤ Facts.MaxColumns :=
+  colLoop_small col multi c cs v hc h
+
+/-- case-insensitivity (acceptance and value) -/
+theorem col_case_insensitive (name : List Char) (c : Int) :
+    columnNameToNumber (name.map toUpper) = .ok c ↔ columnNameToNumber name = .ok c := by
+  rw [columnNameToNumber_ok_iff, columnNameToNumber_ok_iff]
+  have e : colRaw (name.map toUpper) = colRaw name := by unfold colRaw; exact colRawAux_toUpper 0 name
+  rw [e]
   simp
 
-/-- no accepted column is above the limit; with ≤ 13 letters none is below 1.
-(Without the length bound the lower bound is false: `finding_colname_overflow`.) -/
-theorem col_decode_le_max (name : List Char) (c : Int) (h : columnNameToNumber name = .ok c) :
-    c ≤ (Facts.MaxColumns : Int) := by
-  unfold columnNameToNumber at h
-  split at h
-  · cases h
-  · split at h
-    · cases h
-    · dsimp only at h
-      split at h
-      · cases h
-      · rename_i hmax
-        simp only [Except.ok.injEq] at h
-        omega
-
 /-! ## Cells: inverse over the whole grid, absolute forms included -/
-
-theorem sign_pre_alpha (abs : Bool) (name : List Char) (hn : ∀ c ∈ name, isLetter c = true) :
-    ∀ c ∈ ((if abs then ['$'] else []) ++ name ++ (if abs then ['$'] else []) : List Char),
-      isAlpha c = true := by
-  intro c hc
-  simp only [List.mem_append] at hc
-  rcases hc with (hc | hc) | hc
-  · cases abs <;> simp at hc; subst hc; decide
-  · exact isLetter_alpha (hn c hc)
-  · cases abs <;> simp at hc; subst hc; decide
-
-theorem sign_pre_filter (abs : Bool) (name : List Char) (hn : ∀ c ∈ name, isLetter c = true) :
-    ((if abs then ['$'] else []) ++ name ++ (if abs then ['$'] else []) : List Char).filter
-      (fun c => !isDollar c) = name := by
-  have hf : name.filter (fun c => !isDollar c) = name := by
-    apply List.filter_eq_self.mpr
-    intro c hc; simp [isLetter_not_dollar (hn c hc)]
-  cases abs
-  · simp [hf]
-  · have d : isDollar '$' = true := by decide
-    simp [List.filter_append, hf, d]
 
 /-- the encoder's output, explicitly -/
 theorem cell_encode_eq (c r : Nat) (abs : Bool) (hc1 : 1 ≤ c) (hc2 : c ≤ Facts.MaxColumns)
@@ -143,26 +100,13 @@ theorem cell_encode_eq (c r : Nat) (abs : Bool) (hc1 : 1 ≤ c) (hc2 : c ≤ Fac
   rw [itoaInt_pos (by omega)]
   simp
 
-/-- decoding `$?LETTERS$?DIGITS` built from an in-range column name and row -/
-theorem cell_decode_eq (name : List Char) (c r : Nat) (abs : Bool) (hne : name ≠ [])
-    (hl : ∀ ch ∈ name, isLetter ch = true) (hcol : columnNameToNumber name = .ok (c : Int))
+/-- the encoder's output has the strict A1 shape and denotes `(c, r)` -/
+theorem cell_encode_shape (c r : Nat) (abs : Bool) (hc1 : 1 ≤ c) (hc2 : c ≤ Facts.MaxColumns)
     (hr1 : 1 ≤ r) (hr2 : r ≤ Facts.TotalRows) :
-    cellNameToCoordinates
-      ((if abs then ['$'] else []) ++ name ++ (if abs then ['$'] else []) ++ itoaAux r) =
-      .ok ((c : Int), (r : Int)) := by
-  have hM := limits_ok
-  have hpre : ((if abs then ['$'] else []) ++ name ++ (if abs then ['$'] else []) : List Char) ≠ [] := by
-    cases abs <;> simp [hne]
-  have hs := split_pre _ (itoaAux r) hpre (sign_pre_alpha abs _ hl)
-    (itoaAux_ne_nil hr1) (itoaAux_digits r)
-  rw [digitsVal_itoaAux hr1] at hs
-  have hr3 : r < 9223372036854775808 := by rw [hM.2.2] at hr2; omega
-  have hr0 : 0 < r := by omega
-  simp only [hr0, hr3, and_self, if_true, sign_pre_filter abs _ hl] at hs
-  unfold cellNameToCoordinates
-  rw [hs]
-  have d : ¬ ((r : Int) > (Facts.TotalRows : Int)) := by omega
-  simp only [d, if_false, hcol]
+    Shape ((if abs then ['$'] else []) ++ numToName c ++ (if abs then ['$'] else []) ++ itoaAux r) c r := by
+  have hd : IsDol (if abs then ['$'] else []) := by cases abs <;> simp [IsDol]
+  exact ⟨_, numToName c, _, itoaAux r, rfl, hd, hd, numToName_ne_nil hc1, numToName_letters c,
+    itoaAux_ne_nil hr1, itoaAux_digits r, colRaw_numToName c, hc1, hc2, digitsVal_itoaAux hr1, hr1, hr2⟩
 
 /-- coordinates → name → coordinates for every cell of the 16384 × 1048576 grid,
 relative and absolute -/
@@ -171,279 +115,178 @@ theorem cell_encode_decode (c r : Nat) (abs : Bool) (hc1 : 1 ≤ c) (hc2 : c ≤
     ∃ s, coordinatesToCellName (c : Int) (r : Int) abs = .ok s ∧
       cellNameToCoordinates s = .ok ((c : Int), (r : Int)) :=
   ⟨_, cell_encode_eq c r abs hc1 hc2 hr1 hr2,
-    cell_decode_eq _ c r abs (numToName_ne_nil hc1) (numToName_letters c)
-      (col_encode_decode c hc1 hc2).2 hr1 hr2⟩
+    decode_of_shape (cell_encode_shape c r abs hc1 hc2 hr1 hr2)⟩
 
-/-! ## Strict validation -/
+/-- name → coordinates → name: every accepted spelling decodes into the grid and
+re-encodes to the canonical spelling of the same cell, which decodes to the same
+coordinates again. -/
+theorem cell_decode_encode (s : List Char) (ci ri : Int) (h : cellNameToCoordinates s = .ok (ci, ri)) :
+    1 ≤ ci ∧ ci ≤ (Facts.MaxColumns : Int) ∧ 1 ≤ ri ∧ ri ≤ (Facts.TotalRows : Int) ∧
+    ∃ canon, coordinatesToCellName ci ri false = .ok canon ∧
+      cellNameToCoordinates canon = .ok (ci, ri) := by
+  obtain ⟨c, r, hs, rfl, rfl⟩ := shape_of_decode h
+  obtain ⟨_, _, _, _, _, _, _, _, _, _, _, _, hc1, hc2, _, hr1, hr2⟩ := hs
+  refine ⟨by omega, by omega, by omega, by omega, ?_⟩
+  exact cell_encode_decode c r false hc1 hc2 hr1 hr2
 
-theorem dropDollar_decomp (s : List Char) :
-    ∃ d : List Char, (∀ c ∈ d, isDollar c = true) ∧ s = d ++ dropDollar s := by
-  cases s with
-  | nil => exact ⟨[], by simp, rfl⟩
-  | cons x xs =>
-    unfold dropDollar
-    cases hx : isDollar x with
-    | true => exact ⟨[x], by intro c hc; simp at hc; subst hc; exact hx, by simp [hx]⟩
-    | false => exact ⟨[], by simp, by simp [hx]⟩
-
-theorem digitsValAux_some_digits {acc v : Nat} {xs : List Char} (h : digitsValAux acc xs = some v) :
-    ∀ c ∈ xs, isDigit c = true := by
-  induction xs generalizing acc with
-  | nil => simp
-  | cons x xs ih =>
-    simp only [digitsValAux] at h
-    split at h
-    · rename_i hx
-      intro c hc
-      rcases List.mem_cons.mp hc with rfl | hc
-      · exact hx
-      · exact ih h c hc
-    · cases h
-
-theorem digitsVal_some {D : List Char} {v : Nat} (h : digitsVal D = some v) :
-    D ≠ [] ∧ ∀ c ∈ D, isDigit c = true := by
-  unfold digitsVal at h
-  split at h
-  · cases h
-  · rename_i hne
-    exact ⟨by intro e; subst e; simp at hne, digitsValAux_some_digits h⟩
+/-! ## Strict validation: accepted ⇔ A1 reference inside the grid -/
 
 /-- **Completeness**: every string of the strict A1 grammar inside the grid is
 accepted and decoded to the cell it denotes (all casings, `$` forms, all rows). -/
 theorem spec_sound (s : List Char) (c r : Nat) (h : parseA1 s = some (c, r)) :
-    cellNameToCoordinates s = .ok ((c : Int), (r : Int)) := by
-  have hM := limits_ok
-  unfold parseA1 at h
-  simp only [] at h
-  split at h
-  · cases h
-  · rename_i hLne
-    split at h
-    · rename_i cv rv hcol hdig
-      split at h
-      · rename_i hrange
-        simp only [Option.some.injEq, Prod.mk.injEq] at h
-        obtain ⟨rfl, rfl⟩ := h
-        obtain ⟨d1, hd1, e1⟩ := dropDollar_decomp s
-        obtain ⟨d2, hd2, e2⟩ := dropDollar_decomp ((dropDollar s).dropWhile isLetter)
-        have e3 : dropDollar s =
-            (dropDollar s).takeWhile isLetter ++ (dropDollar s).dropWhile isLetter :=
-          (List.takeWhile_append_dropWhile).symm
-        have hLl : ∀ ch ∈ (dropDollar s).takeWhile isLetter, isLetter ch = true :=
-          fun ch hch => List.all_eq_true.mp List.all_takeWhile ch hch
-        have ⟨hDne, hDd⟩ := digitsVal_some hdig
-        have es : s = (d1 ++ (dropDollar s).takeWhile isLetter ++ d2) ++
-            dropDollar ((dropDollar s).dropWhile isLetter) := by
-          calc s = d1 ++ dropDollar s := e1
-            _ = d1 ++ ((dropDollar s).takeWhile isLetter ++ (dropDollar s).dropWhile isLetter) := by
-                  rw [← e3]
-            _ = d1 ++ ((dropDollar s).takeWhile isLetter ++
-                  (d2 ++ dropDollar ((dropDollar s).dropWhile isLetter))) := by rw [← e2]
-            _ = _ := by simp
-        have hLne' : (dropDollar s).takeWhile isLetter ≠ [] := by
-          intro e; rw [e] at hLne; simp at hLne
-        have hpre : (d1 ++ (dropDollar s).takeWhile isLetter ++ d2) ≠ [] := by
-          simp [hLne']
-        have hall : ∀ ch ∈ (d1 ++ (dropDollar s).takeWhile isLetter ++ d2), isAlpha ch = true := by
-          intro ch hch
-          simp only [List.mem_append] at hch
-          rcases hch with (hch | hch) | hch
-          · exact isDollar_alpha (hd1 ch hch)
-          · exact isLetter_alpha (hLl ch hch)
-          · exact isDollar_alpha (hd2 ch hch)
-        have hfil : (d1 ++ (dropDollar s).takeWhile isLetter ++ d2).filter (fun c => !isDollar c) =
-            (dropDollar s).takeWhile isLetter := by
-          have f1 : d1.filter (fun c => !isDollar c) = [] := by
-            apply List.filter_eq_nil_iff.mpr; intro ch hch; simp [hd1 ch hch]
-          have f2 : d2.filter (fun c => !isDollar c) = [] := by
-            apply List.filter_eq_nil_iff.mpr; intro ch hch; simp [hd2 ch hch]
-          have f3 : ((dropDollar s).takeWhile isLetter).filter (fun c => !isDollar c) =
-              (dropDollar s).takeWhile isLetter := by
-            apply List.filter_eq_self.mpr; intro ch hch; simp [isLetter_not_dollar (hLl ch hch)]
-          simp [List.filter_append, f1, f2, f3]
-        have hs := split_pre _ _ hpre hall hDne hDd
-        rw [hdig] at hs
-        have hr3 : rv < 9223372036854775808 := by have := hrange.2.2.2; rw [hM.2.2] at this; omega
-        have hr0 : 0 < rv := by omega
-        simp only [hr0, hr3, and_self, if_true, hfil] at hs
-        unfold cellNameToCoordinates
-        rw [es, hs]
-        have d : ¬ ((rv : Int) > (Facts.TotalRows : Int)) := by omega
-        simp only [d, if_false]
-        unfold columnNameToNumber
-        have : ((dropDollar s).takeWhile isLetter).isEmpty = false := by
-          simpa [List.isEmpty_iff] using hLne'
-        simp only [this, Bool.false_eq_true, if_false, hcol]
-        have hw : wrap64 (cv : Int) = cv :=
-          wrap64_small (by omega) (by have := hrange.2.1; rw [hM.1] at this; omega)
-        simp only [hw]
-        have : ¬ ((cv : Int) > (Facts.MaxColumns : Int)) := by omega
-        simp [this]
-      · cases h
-    · cases h
+    cellNameToCoordinates s = .ok ((c : Int), (r : Int)) :=
+  decode_of_shape (shape_of_parseA1 h)
 
-theorem takeWhile_append_stop (p : Char → Bool) (pre D : List Char) (hp : ∀ c ∈ pre, p c = true)
-    (hD : ∃ d ds, D = d :: ds ∧ p d = false) :
-    (pre ++ D).takeWhile p = pre ∧ (pre ++ D).dropWhile p = D := by
-  obtain ⟨d, ds, rfl, hd⟩ := hD
-  induction pre with
-  | nil => simp [List.takeWhile, List.dropWhile, hd]
-  | cons x xs ih =>
-    have hx := hp x (by simp)
-    have := ih (fun c hc => hp c (by simp [hc]))
-    simp [List.takeWhile, List.dropWhile, hx, this.1, this.2]
-
-theorem dropDollar_of_not {x : Char} {xs : List Char} (h : isDollar x = false) :
-    dropDollar (x :: xs) = x :: xs := by
-  simp [dropDollar, h]
-
-/-- **Strictness, the part that holds on the current tree**: a string made only of
-letters and digits, at most 13 characters long, that the implementation maps to
-a coordinate *is* an A1 reference inside the grid denoting that coordinate.
-The full statement (no hypothesis on the characters or the length) is false:
-see `finding_accept_sign`, `finding_accept_stray_dollar`, `finding_colname_overflow`. -/
-theorem rejects_non_a1_partial (s : List Char) (c r : Int)
-    (hchars : ∀ ch ∈ s, isLetter ch = true ∨ isDigit ch = true) (hlen : s.length ≤ 13)
-    (h : cellNameToCoordinates s = .ok (c, r)) :
+/-- **Strictness, full strength**: for EVERY string (any characters, any length),
+if the implementation maps it to a coordinate then it is an A1 reference inside
+the grid denoting exactly that coordinate. Hence every string that is not such a
+reference is rejected with an error. -/
+theorem rejects_non_a1 (s : List Char) (c r : Int) (h : cellNameToCoordinates s = .ok (c, r)) :
     ∃ cn rn : Nat, parseA1 s = some (cn, rn) ∧ c = cn ∧ r = rn := by
-  have hM := limits_ok
-  unfold cellNameToCoordinates at h
-  split at h
-  · cases h
-  · rename_i colName row hsplit
+  obtain ⟨cn, rn, hs, rfl, rfl⟩ := shape_of_decode h
+  exact ⟨cn, rn, parseA1_of_shape hs, rfl, rfl⟩
+
+/-- the two directions together -/
+theorem accepted_iff_a1 (s : List Char) (c r : Nat) :
+    cellNameToCoordinates s = .ok ((c : Int), (r : Int)) ↔ parseA1 s = some (c, r) := by
+  constructor
+  · intro h
+    obtain ⟨cn, rn, hp, hc, hr⟩ := rejects_non_a1 s _ _ h
+    have : c = cn := by omega
+    have : r = rn := by omega
+    subst_vars; exact hp
+  · exact spec_sound s c r
+
+/-- regression witnesses: the strings the unrepaired code accepted (signed row,
+stray `$`, 14-letter overflow) are rejected by the repaired code -/
+theorem fixed_reject_witnesses :
+    (∃ e, cellNameToCoordinates ['A', '+', '1'] = .error e) ∧
+    (∃ e, cellNameToCoordinates ['A', '$', 'B', '1'] = .error e) ∧
+    (∃ e, cellNameToCoordinates ['$', '$', 'A', '1'] = .error e) ∧
+    (∃ e, columnNameToNumber (List.replicate 14 'Z') = .error e) := by
+  refine ⟨⟨.cellName, by decide +kernel⟩, ⟨.cellName, by decide +kernel⟩,
+    ⟨.cellName, by decide +kernel⟩, ⟨.colNumber, by decide +kernel⟩⟩
+
+/-! ## Ranges: `coordinatesToRangeRef` / `rangeRefToCoordinates` / `sortCoordinates` -/
+
+/-- `sortCoordinates` returns an ordered rectangle … -/
+theorem sort_sorted (c1 r1 c2 r2 : Int) :
+    (sortCoordinates (c1, r1, c2, r2)).1 ≤ (sortCoordinates (c1, r1, c2, r2)).2.2.1 ∧
+    (sortCoordinates (c1, r1, c2, r2)).2.1 ≤ (sortCoordinates (c1, r1, c2, r2)).2.2.2 := by
+  unfold sortCoordinates
+  dsimp only
+  split <;> split <;> (constructor <;> simp <;> omega)
+
+/-- … with the same corner columns and rows, is the identity on ordered input, and is idempotent -/
+theorem sort_of_sorted (c1 r1 c2 r2 : Int) (hc : c1 ≤ c2) (hr : r1 ≤ r2) :
+    sortCoordinates (c1, r1, c2, r2) = (c1, r1, c2, r2) := by
+  unfold sortCoordinates
+  have a : ¬ c2 < c1 := by omega
+  have b : ¬ r2 < r1 := by omega
+  simp [a, b]
+
+theorem sort_idem (q : Int × Int × Int × Int) :
+    sortCoordinates (sortCoordinates q) = sortCoordinates q := by
+  obtain ⟨c1, r1, c2, r2⟩ := q
+  have h := sort_sorted c1 r1 c2 r2
+  generalize sortCoordinates (c1, r1, c2, r2) = t at h
+  obtain ⟨a, b, c, d⟩ := t
+  exact sort_of_sorted a b c d h.1 h.2
+
+/-- coordinates → range reference → coordinates, for every pair of in-grid corners
+(ordered or not), relative and absolute -/
+theorem range_encode_decode (c1 r1 c2 r2 : Nat) (abs : Bool)
+    (hc1 : 1 ≤ c1 ∧ c1 ≤ Facts.MaxColumns) (hr1 : 1 ≤ r1 ∧ r1 ≤ Facts.TotalRows)
+    (hc2 : 1 ≤ c2 ∧ c2 ≤ Facts.MaxColumns) (hr2 : 1 ≤ r2 ∧ r2 ≤ Facts.TotalRows) :
+    ∃ s, coordinatesToRangeRef ((c1 : Int), (r1 : Int), (c2 : Int), (r2 : Int)) abs = .ok s ∧
+      rangeRefToCoordinates s = .ok ((c1 : Int), (r1 : Int), (c2 : Int), (r2 : Int)) := by
+  have e1 := cell_encode_eq c1 r1 abs hc1.1 hc1.2 hr1.1 hr1.2
+  have e2 := cell_encode_eq c2 r2 abs hc2.1 hc2.2 hr2.1 hr2.2
+  have hd : IsDol (if abs then ['$'] else []) := by cases abs <;> simp [IsDol]
+  refine ⟨_, by unfold coordinatesToRangeRef; simp only [e1, e2]; rfl, ?_⟩
+  have f1 := filter_dollar_encoded _ (numToName c1) _ (itoaAux r1) hd hd (numToName_letters c1)
+    (itoaAux_digits r1)
+  have f2 := filter_dollar_encoded _ (numToName c2) _ (itoaAux r2) hd hd (numToName_letters c2)
+    (itoaAux_digits r2)
+  have nc : ∀ (c r : Nat), ∀ x ∈ numToName c ++ itoaAux r, isColon x = false := by
+    intro c r x hx
+    rcases List.mem_append.mp hx with hx | hx
+    · exact isLetter_not_colon (numToName_letters c x hx)
+    · exact isDigit_not_colon (itoaAux_digits r x hx)
+  have d1 := decode_of_shape (cell_encode_shape c1 r1 false hc1.1 hc1.2 hr1.1 hr1.2)
+  have d2 := decode_of_shape (cell_encode_shape c2 r2 false hc2.1 hc2.2 hr2.1 hr2.2)
+  simp only [Bool.false_eq_true, if_false, List.nil_append, List.append_nil] at d1 d2
+  have fc : List.filter (fun c => !isDollar c) [':'] = [':'] := by decide
+  unfold rangeRefToCoordinates
+  rw [List.filter_append, List.filter_append, f1, f2, fc]
+  have e : numToName c1 ++ itoaAux r1 ++ [':'] ++ (numToName c2 ++ itoaAux r2) =
+      (numToName c1 ++ itoaAux r1) ++ ':' :: (numToName c2 ++ itoaAux r2) := by simp
+  rw [e, splitColon_two _ _ (nc c1 r1) (nc c2 r2)]
+  simp only [d1, d2]
+
+/-! ## Spellings: every accepted spelling of a cell addresses the same cell -/
+
+/-- the getter's normalisation (upper-casing) does not change what is denoted -/
+theorem upper_same_cell (s : List Char) (ci ri : Int) (h : cellNameToCoordinates s = .ok (ci, ri)) :
+    cellNameToCoordinates (s.map toUpper) = .ok (ci, ri) := by
+  obtain ⟨c, r, hs, rfl, rfl⟩ := shape_of_decode h
+  exact decode_of_shape (shape_upper hs)
+
+/-- **Strictness at the API level**: the normalisation every cell-name API applies
+before decoding (ASCII upper-casing in `mergeCellsParser`) neither widens nor
+narrows what is accepted: the normalised string decodes to `(c, r)` iff the
+string itself does. -/
+theorem api_strict (s : List Char) (ci ri : Int) :
+    cellNameToCoordinates (s.map toUpper) = .ok (ci, ri) ↔ cellNameToCoordinates s = .ok (ci, ri) := by
+  constructor
+  · intro h
+    obtain ⟨c, r, hs, rfl, rfl⟩ := shape_of_decode h
+    exact decode_of_shape (shape_of_upper hs)
+  · exact upper_same_cell s ci ri
+
+/-- hence an API accepts a string iff it is an A1 reference inside the grid -/
+theorem api_accepts_iff_a1 (s : List Char) :
+    (apiRef s).isSome = true ↔ ∃ c r, parseA1 s = some (c, r) := by
+  unfold apiRef getterRef setterRef
+  constructor
+  · intro h
     split at h
-    · cases h
-    · rename_i hrow
-      split at h
-      · cases h
-      · rename_i col hcolnum
-        simp only [Except.ok.injEq, Prod.mk.injEq] at h
-        obtain ⟨rfl, rfl⟩ := h
-        obtain ⟨pre, D, rfl, hpre, hD, ⟨a, as, hpa, haa⟩, hDna, hcol, hatoi, hrow0⟩ :=
-          split_ok_shape hsplit
-        have hnd : ∀ ch ∈ pre, isDollar ch = false := by
-          intro ch hch
-          rcases hchars ch (by simp [hch]) with h1 | h1
-          · exact isLetter_not_dollar h1
-          · exact isDigit_not_dollar h1
-        have hcol' : colName = pre := by
-          rw [hcol]; apply List.filter_eq_self.mpr; intro ch hch; simp [hnd ch hch]
-        rw [hcol'] at hcolnum
-        have hplen : pre.length ≤ 13 := by
-          have : (pre.filter (fun c => !isDollar c)).length ≤ pre.length := List.length_filter_le _ _
-          simp at hlen; omega
-        have ⟨h1, h2, h3⟩ := col_decode_encode _ hplen col hcolnum
-        -- column part
-        unfold columnNameToNumber at hcolnum
-        split at hcolnum
-        · cases hcolnum
-        · split at hcolnum
-          · cases hcolnum
-          · rename_i v hv
-            have hlt := colRaw_lt_of_short hv hplen
-            have hw : wrap64 (v : Int) = v := wrap64_small (by omega) (by omega)
-            simp only [hw] at hcolnum
-            split at hcolnum
-            · cases hcolnum
-            · simp only [Except.ok.injEq] at hcolnum
-              subst hcolnum
-              have hLl : ∀ ch ∈ pre, isLetter ch = true := colRawAux_some_letters hv
-              have hDd : ∀ ch ∈ D, isDigit ch = true := by
-                intro ch hch
-                rcases hchars ch (by simp [hch]) with h1 | h1
-                · have := hDna ch hch; rw [isLetter_alpha h1] at this; cases this
-                · exact h1
-              rw [atoi_digits hD hDd] at hatoi
-              cases hdv : digitsVal D with
-              | none => rw [hdv] at hatoi; cases hatoi
-              | some rv =>
-                rw [hdv] at hatoi
-                simp only [Option.bind_some] at hatoi
-                split at hatoi
-                · simp only [Option.some.injEq] at hatoi
-                  subst hatoi
-                  refine ⟨v, rv, ?_, rfl, rfl⟩
-                  obtain ⟨d, ds, rfl⟩ : ∃ d ds, D = d :: ds := by
-                    cases D with
-                    | nil => exact absurd rfl hD
-                    | cons d ds => exact ⟨d, ds, rfl⟩
-                  have hdd := hDd d (by simp)
-                  have hstop := takeWhile_append_stop isLetter pre (d :: ds) hLl
-                    ⟨d, ds, rfl, isDigit_not_letter hdd⟩
-                  unfold parseA1
-                  have e0 : dropDollar (pre ++ d :: ds) = pre ++ d :: ds := by
-                    rw [hpa] at hnd ⊢
-                    exact dropDollar_of_not (hnd a (by simp))
-                  simp only [e0, hstop.1, hstop.2, dropDollar_of_not (isDigit_not_dollar hdd)]
-                  have : pre.isEmpty = false := by simpa [List.isEmpty_iff] using hpre
-                  simp only [this, Bool.false_eq_true, if_false, hv, hdv]
-                  have g : 1 ≤ v ∧ v ≤ Facts.MaxColumns ∧ 1 ≤ rv ∧ rv ≤ Facts.TotalRows := by
-                    refine ⟨by omega, by omega, by omega, by omega⟩
-                  simp [g]
-                · cases hatoi
+    · rename_i c r hdec
+      obtain ⟨cn, rn, hp, _, _⟩ := rejects_non_a1 s c r ((api_strict s c r).mp hdec)
+      exact ⟨cn, rn, hp⟩
+    · simp at h
+  · rintro ⟨c, r, hp⟩
+    have hd := spec_sound s c r hp
+    have hu := upper_same_cell s _ _ hd
+    obtain ⟨_, _, _, _, canon, hcanon, _⟩ := cell_decode_encode s _ _ hd
+    simp [hu, hcanon]
 
-/-! ## Findings: where the full-strength statements fail on the current tree
-
-The property says every string that is not an A1 reference is rejected. The
-transcription accepts the following (each replayed on the real code by the
-harness, signatures `c2xy:accept-sign-in-row`, `c2xy:accept-stray-dollar`,
-`c2n:colname-overflow`, `spell:getter-string-lookup`). -/
-
-theorem finding_accept_sign :
-    cellNameToCoordinates ['A', '+', '1'] = .ok (1, 1) ∧ parseA1 ['A', '+', '1'] = none := by
-  decide +kernel
-
-theorem finding_accept_stray_dollar :
-    cellNameToCoordinates ['A', '$', 'B', '1'] = .ok (28, 1) ∧ parseA1 ['A', '$', 'B', '1'] = none ∧
-    cellNameToCoordinates ['$', '$', 'A', '1'] = .ok (1, 1) ∧ parseA1 ['$', '$', 'A', '1'] = none := by
-  decide +kernel
-
-/-- 14 letters overflow Go's `int`: a negative column with a nil error -/
-theorem finding_colname_overflow :
-    columnNameToNumber (List.replicate 14 'Z') = .ok (-6696602603409169450) := by
-  decide +kernel
-
-/-! ## Spellings: setters index by coordinates, getters compare strings -/
-
-theorem map_toUpper_digits (D : List Char) (h : ∀ c ∈ D, isDigit c = true) : D.map toUpper = D := by
-  induction D with
-  | nil => rfl
-  | cons x xs ih =>
-    simp [toUpper_nonletter (isDigit_not_letter (h x (by simp))), ih (fun c hc => h c (by simp [hc]))]
-
-/-- Any casing of the canonical spelling (letters + canonical decimal row) is
-found by the getters: the upper-cased spelling *is* the stored reference. -/
-theorem spellings_same_cell_partial (L : List Char) (r : Nat) (hL : L ≠ [])
-    (hLl : ∀ c ∈ L, isLetter c = true) (c : Nat) (hc : colRaw L = some c)
-    (hc2 : c ≤ Facts.MaxColumns) (hr1 : 1 ≤ r) (hr2 : r ≤ Facts.TotalRows) :
-    getterFinds (L ++ itoaAux r) = some true := by
-  have hM := limits_ok
-  have hup : ∀ ch ∈ L.map toUpper, isUp ch = true := by
-    intro ch hch
-    obtain ⟨x, hx, rfl⟩ := List.mem_map.mp hch
-    exact (toUpper_letter_val (hLl x hx)).1
-  have hupl : ∀ ch ∈ L.map toUpper, isLetter ch = true := by
-    intro ch hch; simp [isLetter, hup ch hch]
-  have hcu : colRaw (L.map toUpper) = some c := by unfold colRaw; rw [colRawAux_toUpper]; exact hc
-  have hname : numToName c = L.map toUpper := numToName_of_colRaw hup hcu
-  have hc1 : 1 ≤ c := (colRawAux_bound hc).2.2 hL
-  have hcn : columnNameToNumber (L.map toUpper) = .ok (c : Int) := by
-    rw [← hname]; exact (col_encode_decode c hc1 hc2).2
-  have hdec := cell_decode_eq (L.map toUpper) c r false (by simpa using hL) hupl hcn hr1 hr2
-  have henc := cell_encode_eq c r false hc1 hc2 hr1 hr2
-  simp only [Bool.false_eq_true, if_false, List.nil_append, List.append_nil] at hdec henc
-  unfold getterFinds
-  simp only [List.map_append, map_toUpper_digits _ (itoaAux_digits r), hdec, henc, hname]
+/-- **Full strength**: for every spelling `s` a setter accepts, the reference the
+setter stores and the reference a getter called with the same spelling looks up
+are the same canonical name — the getter finds what the setter wrote. -/
+theorem spellings_same_cell (s : List Char) (ci ri : Int) (h : cellNameToCoordinates s = .ok (ci, ri)) :
+    getterFinds s = some true := by
+  obtain ⟨_, _, _, _, canon, hcanon, _⟩ := cell_decode_encode s ci ri h
+  have hu := upper_same_cell s ci ri h
+  unfold getterFinds getterRef setterRef
+  simp only [h, hu, hcanon]
   simp
 
-/-- …but a spelling the setter accepts with `$` signs or leading zeros is *not*
-found by the getter (the write lands in B2, the read by the same spelling
-returns the empty string). -/
-theorem finding_getter_string_lookup :
-    cellNameToCoordinates ['$', 'B', '$', '2'] = .ok (2, 2) ∧
-    getterFinds ['$', 'B', '$', '2'] = some false ∧
-    cellNameToCoordinates ['B', '0', '2'] = .ok (2, 2) ∧
-    getterFinds ['B', '0', '2'] = some false := by
+/-- two accepted spellings of the same coordinates are stored under, and looked up
+by, the same reference -/
+theorem spellings_agree (s t : List Char) (ci ri : Int)
+    (hs : cellNameToCoordinates s = .ok (ci, ri)) (ht : cellNameToCoordinates t = .ok (ci, ri)) :
+    setterRef s = setterRef t ∧ getterRef s = setterRef t := by
+  have hu := upper_same_cell s ci ri hs
+  unfold getterRef setterRef
+  simp only [hs, ht, hu]
+  simp
+
+/-- non-vacuity: `$b$02` is accepted, denotes B2, and is found -/
+theorem spellings_example :
+    cellNameToCoordinates ['$', 'b', '$', '0', '2'] = .ok (2, 2) ∧
+    getterFinds ['$', 'b', '$', '0', '2'] = some true ∧
+    getterFinds ['B', '0', '2'] = some true := by
   decide +kernel
 
 end XlModel.Props.C20
